@@ -9,11 +9,14 @@
 (* The generator aims at rules that are accepted by the parser and run; it does not try to be uniform.    *)
 EXTENDS RuleAst, Inventory
 
-H(seed, p) == LET h0 == ((seed % 65521) * 32003 + 12345) % 65521
+H(seed, p) == LET M  == 46337                                  \* prime; every intermediate stays below 2^31 (TLC integers are 32-bit)
+                  h0 == ((seed % M) * 31337 + 12345) % M
                   h1 == (h0 * 75 + 74) % 65537
-                  h2 == (h1 + (p % 100003) * 131) % 65537
-                  h3 == (h2 * 75 + 74) % 65537
-              IN  (h3 * 75 + 74) % 65537
+                  pl == p % 997   ph == p \div 997
+                  h2 == (h1 * (pl + 3) + ph * 7919 + 1) % M
+                  h3 == (h2 * 31337 + ph * 613 + pl) % M
+                  h4 == (h3 * h3 + h2) % M                      \* the square makes the value non-linear in p: neighbouring choice points (children p*8+i) are independent
+              IN  (h4 * 75 + h1) % M
 Pick(seed, p, n) == (H(seed, p) % n) + 1                     \* 1..n
 Chance(seed, p, num, den) == H(seed, p) % den < num
 C(p, i) == (p * 8 + i) % 1000003                              \* i-th child of choice point p
@@ -45,8 +48,10 @@ GenSeg(seed, p) ==
     [] c = 7  -> Mx(<<>>)
     [] c <= 9 -> Grp(Pick(seed, C(p, 1), 9))
     [] OTHER  -> WithMods(Grp(Pick(seed, C(p, 1), 9)), <<IF Chance(seed, C(p, 2), 1, 3) THEN GenStressMod(seed, C(p, 3)) ELSE GenFeatMod(seed, C(p, 3))>>)
-GenSet(seed, p) == SetOf([i \in 1..(1 + Pick(seed, p, 2)) |-> GenSeg(seed, C(p, i))])
 GenSyl(seed, p) == SylEl(IF Chance(seed, p, 1, 2) THEN <<>> ELSE IF Chance(seed, C(p, 1), 1, 2) THEN <<GenStressMod(seed, C(p, 2))>> ELSE <<GenToneMod(seed, C(p, 2))>>)
+\* SET_TRM <- SEG / BOUND / SYL
+GenSetItem(seed, p) == LET c == Pick(seed, p, 12) IN IF c = 1 THEN SB ELSE IF c = 2 THEN GenSyl(seed, C(p, 1)) ELSE GenSeg(seed, C(p, 1))
+GenSet(seed, p) == SetOf([i \in 1..(1 + Pick(seed, p, 2)) |-> GenSetItem(seed, C(p, i))])
 GenStruct(seed, p) ==
   LET c == Pick(seed, p, 4) IN
   Struct(CASE c = 1 -> <<Grp(1), Grp(9)>>                       \* <CV>
@@ -103,13 +108,30 @@ GenOutSeg(seed, p) ==
     [] OTHER  -> Mx(<<LET c2 == Pick(seed, C(p, 1), 3) IN IF c2 = 1 THEN GenLenMod(seed, C(p, 2)) ELSE IF c2 = 2 THEN GenStressMod(seed, C(p, 2)) ELSE GenToneMod(seed, C(p, 2))>>)
 
 (* rule classes *)
-\* substitution: k input segment terms, k (or k+-1) outputs
+\* substitution: k input elements drawn from every INP_EL production (segments mostly; sets, $, %, structures, bound variables), an output element
+\* for each, and - sometimes - one output more or one fewer than there are inputs (the surplus input is deleted, the surplus output inserted)
+GenInEl(seed, p, i) ==
+  LET c == Pick(seed, p, 16) IN
+  CASE c <= 9  -> GenSeg(seed, C(p, 1))
+    [] c = 10  -> IF i = 1 THEN GenSet(seed, C(p, 1)) ELSE GenSeg(seed, C(p, 1))
+    [] c = 11  -> SB
+    [] c = 12  -> GenSyl(seed, C(p, 1))
+    [] c = 13  -> GenStruct(seed, C(p, 1))
+    [] c = 14  -> LET e == GenSeg(seed, C(p, 1)) IN Bind(IF e.k = "ipa" THEN Grp(Pick(seed, C(p, 2), 9)) ELSE e, i)     \* only matrices and groups take `=n`
+    [] OTHER   -> GenSeg(seed, C(p, 1))
+GenOutFor(seed, p, e, i) ==
+  CASE e.k = "set" -> SetOf([j \in 1..Len(e.items) |-> Ipa(Lits[Pick(seed, C(p, j), Len(Lits))])])
+    [] e.k = "sb"  -> SB
+    [] e.k \in {"syl", "struct"} -> Mx(<<IF Chance(seed, C(p, 1), 1, 2) THEN GenStressMod(seed, C(p, 2)) ELSE GenToneMod(seed, C(p, 2))>>)
+    [] e.var > 0 /\ Chance(seed, C(p, 1), 1, 2) -> VarRef(e.var)
+    [] OTHER -> GenOutSeg(seed, C(p, 3))
 GenSub(seed, p) ==
   LET k == Pick(seed, p, 3)  IN
-  LET inp == [i \in 1..(IF k = 3 THEN 2 ELSE k) |-> IF Chance(seed, C(p, 6), 1, 6) /\ i = 1 THEN GenSet(seed, C(C(p, 1), i)) ELSE GenSeg(seed, C(C(p, 1), i))]
-      out == [i \in 1..Len(inp) |-> IF inp[i].k = "set" THEN SetOf([j \in 1..Len(inp[i].items) |-> Ipa(Lits[Pick(seed, C(C(p, 2), i * 4 + j), Len(Lits))])])
-                                    ELSE GenOutSeg(seed, C(C(p, 2), i))]
-      out2 == IF Chance(seed, C(p, 3), 1, 8) THEN Append(out, Ipa(Lits[Pick(seed, C(p, 4), Len(Lits))])) ELSE out
+  LET inp == [i \in 1..(IF k = 3 THEN 2 ELSE k) |-> GenInEl(seed, C(C(p, 1), i), i)]
+      out == [i \in 1..Len(inp) |-> GenOutFor(seed, C(C(p, 2), i), inp[i], i)]
+      out2 == IF Chance(seed, C(p, 3), 1, 8) THEN Append(out, IF Chance(seed, C(p, 6), 1, 5) THEN SB ELSE Ipa(Lits[Pick(seed, C(p, 4), Len(Lits))]))
+              ELSE IF Len(out) >= 2 /\ Chance(seed, C(p, 6), 1, 5) THEN SubSeq(out, 1, Len(out) - 1)
+              ELSE out
   IN Rule(inp, out2, GenEnvs(seed, C(p, 5), TRUE), GenExc(seed, C(p, 7)))
 GenDel(seed, p) ==
   LET inp == IF Chance(seed, p, 1, 5) THEN <<SB>> ELSE IF Chance(seed, C(p, 1), 1, 6) THEN <<GenSyl(seed, C(p, 2))>> ELSE [i \in 1..Pick(seed, C(p, 3), 2) |-> GenSeg(seed, C(C(p, 4), i))]
@@ -125,12 +147,31 @@ GenMet(seed, p) ==
                [] c = 4  -> <<SB, GenSeg(seed, C(p, 1))>>
                [] OTHER  -> <<GenSeg(seed, C(p, 1)), SB>>
   IN Rule(inp, <<Met>>, GenEnvs(seed, C(p, 3), TRUE), GenExc(seed, C(p, 4)))
+\* syllable structures in the input: deleted, swapped, replaced by a structure, or given a suprasegmental
+GenStructIn(seed, p) ==
+  LET c == Pick(seed, p, 5)
+      s1 == GenStruct(seed, C(p, 1))   s2 == GenStruct(seed, C(p, 2))
+      envs == GenEnvs(seed, C(p, 3), TRUE)   exc == GenExc(seed, C(p, 4))
+  IN CASE c = 1 -> Rule(<<s1>>, <<Empty>>, envs, exc)
+       [] c = 2 -> Rule(<<s1, s2>>, <<Met>>, envs, exc)
+       [] c = 3 -> Rule(<<s1>>, <<Struct(<<Ipa(Lits[Pick(seed, C(p, 5), Len(Lits))]), Ipa(Lits[Pick(seed, C(p, 6), 5)])>>, <<>>)>>, envs, exc)
+       [] c = 4 -> Rule(<<s1>>, <<Mx(<<IF Chance(seed, C(p, 5), 1, 2) THEN GenStressMod(seed, C(p, 6)) ELSE GenToneMod(seed, C(p, 6))>>)>>, envs, exc)
+       [] OTHER -> Rule(<<GenSeg(seed, C(p, 5)), s1>>, <<Met>>, envs, exc)
+\* an ellipsis inside the input of a substitution or a deletion (the manual only shows it with &)
+GenEllIn(seed, p) ==
+  LET a == GenSeg(seed, C(p, 1))   b == GenSeg(seed, C(p, 2))
+      tail == IF Chance(seed, C(p, 3), 1, 3) THEN <<GenSeg(seed, C(p, 4))>> ELSE <<>>
+      inp == <<a, Ell, b>> \o tail
+  IN IF Chance(seed, C(p, 5), 1, 2) THEN Rule(inp, <<Empty>>, GenEnvs(seed, C(p, 6), TRUE), GenExc(seed, C(p, 7)))
+     ELSE Rule(inp, [i \in 1..(2 + Len(tail)) |-> GenOutSeg(seed, C(C(p, 8), i))], GenEnvs(seed, C(p, 6), TRUE), GenExc(seed, C(p, 7)))
 GenAny(seed) ==
-  LET c == Pick(seed, 1, 10) IN
-  CASE c <= 5 -> GenSub(seed, 2)
-    [] c <= 7 -> GenDel(seed, 2)
-    [] c <= 9 -> GenIns(seed, 2)
-    [] OTHER  -> GenMet(seed, 2)
+  LET c == Pick(seed, 1, 24) IN
+  CASE c <= 11 -> GenSub(seed, 2)
+    [] c <= 15 -> GenDel(seed, 2)
+    [] c <= 19 -> GenIns(seed, 2)
+    [] c <= 21 -> GenMet(seed, 2)
+    [] c <= 23 -> GenStructIn(seed, 2)
+    [] OTHER   -> GenEllIn(seed, 2)
 
 (* ---------------------------------------------------------------------------------------------------- *)
 (* C06: plant a mandatory literal that the words never contain (q) into the input - for insertion into   *)
@@ -158,10 +199,36 @@ GenVarInput(seed, p) ==
       mid == IF Chance(seed, C(p, 3), 1, 2) THEN <<GenSeg(seed, C(p, 4))>> ELSE <<>>
       inp == <<x>> \o mid \o <<VarRef(1)>>
   IN Rule(inp, IF Chance(seed, C(p, 5), 1, 3) THEN <<Empty>> ELSE [i \in 1..Len(inp) |-> IF i = 1 THEN VarRef(1) ELSE GenOutSeg(seed, C(C(p, 6), i))], GenEnvs(seed, C(p, 7), TRUE), <<>>)
-GenPlanted(seed) == LET c == Pick(seed, 900, 4) IN
+\* further ways of planting. In the input: at any position, or inside a syllable structure (front or back).
+InsertAt(sq, k, e) == SubSeq(sq, 1, k - 1) \o <<e>> \o SubSeq(sq, k, Len(sq))
+PlantAtPos(r, k) ==
+  IF r.inp[1].k = "empty" THEN Plant(r)
+  ELSE [r EXCEPT !.inp = InsertAt(r.inp, k, Ipa(PLANT)),
+                 !.out = IF r.out[1].k \in {"empty", "met"} THEN r.out ELSE InsertAt(r.out, IF k > Len(r.out) + 1 THEN Len(r.out) + 1 ELSE k, Ipa(Ascii.a))]
+PlantInStructs(sq, front) == [i \in 1..Len(sq) |-> IF sq[i].k # "struct" THEN sq[i]
+                                                   ELSE [sq[i] EXCEPT !.items = IF front /\ sq[i].items[1].k # "ell" THEN <<Ipa(PLANT)>> \o @ ELSE Append(@, Ipa(PLANT))]]
+HasStruct(sq) == \E i \in 1..Len(sq) : sq[i].k = "struct"
+\* for insertion, in every context environment: next to the underline on either side, at the far end of either side, or inside a structure
+PlantEnvAt(e, mode) ==
+  LET farL == IF e.b # <<>> /\ e.b[1].k = "wb" THEN 2 ELSE 1
+      farR == IF e.a # <<>> /\ e.a[Len(e.a)].k = "wb" THEN Len(e.a) ELSE Len(e.a) + 1
+  IN CASE mode = 1 -> Env(Append(e.b, Ipa(PLANT)), e.a)
+       [] mode = 2 -> Env(e.b, <<Ipa(PLANT)>> \o e.a)
+       [] mode = 3 -> Env(InsertAt(e.b, farL, Ipa(PLANT)), e.a)
+       [] mode = 4 -> Env(e.b, InsertAt(e.a, farR, Ipa(PLANT)))
+       [] OTHER    -> IF HasStruct(e.b) THEN Env(PlantInStructs(e.b, mode = 5), e.a)
+                      ELSE IF HasStruct(e.a) THEN Env(e.b, PlantInStructs(e.a, mode = 5))
+                      ELSE Env(e.b, <<Ipa(PLANT)>> \o e.a)
+PlantIns(r, mode) == [r EXCEPT !.ctx = [i \in 1..Len(r.ctx) |-> PlantEnvAt(r.ctx[i], mode)]]
+PlantWide(seed, r) ==
+  IF r.inp[1].k = "empty" THEN PlantIns(r, Pick(seed, 910, 6))
+  ELSE IF HasStruct(r.inp) /\ Chance(seed, 911, 2, 3) THEN [r EXCEPT !.inp = PlantInStructs(r.inp, Chance(seed, 912, 1, 2))]
+  ELSE PlantAtPos(r, Pick(seed, 913, Len(r.inp) + 1))
+GenPlanted(seed) == LET c == Pick(seed, 900, 6) IN
                     IF c = 1 THEN PlantAtEnd(GenVarInput(seed, 901))
                     ELSE IF c = 2 THEN PlantAtEnd(GenAny(seed))
-                    ELSE Plant(GenAny(seed))
+                    ELSE IF c = 3 THEN Plant(GenAny(seed))
+                    ELSE PlantWide(seed, GenAny(seed))
 
 (* C14: rules classified by what their output may touch, with arbitrary environments and exceptions *)
 PlainFeatMx(seed, p) == Mx(GenSegMods(seed, p))
@@ -193,7 +260,7 @@ BindableEl(seed, p) ==
     [] OTHER  -> Struct(<<Grp(1), Grp(9)>>, <<>>)
 AlphaTargets == << <<"f", 12>>, <<"f", 7>>, <<"f", 3>>, <<"f", 16>>, <<"f", 20>>, <<"f", 21>>, <<"f", 17>>, <<"f", 4>>, <<"f", 25>>,
                    <<"n", "lab">>, <<"n", "cor">>, <<"n", "dor">>, <<"n", "phr">>, <<"n", "place">>, <<"n", "man">>, <<"n", "lar">>, <<"n", "rut">>,
-                   <<"s", "long">>, <<"s", "stress">> >>
+                   <<"s", "long">>, <<"s", "stress">>, <<"s", "overlong">>, <<"s", "sec.stress">> >>
 GenIdentity(seed) ==
   LET c == Pick(seed, 3, 3) IN
   IF c = 1 THEN
@@ -204,17 +271,22 @@ GenIdentity(seed) ==
      LET a == AlphaTargets[Pick(seed, 4, Len(AlphaTargets))]
          m == <<a[1], a[2], "A">>
      IN [class |-> "alpha", rule |-> Rule(<<Mx(<<m>>)>>, <<Mx(<<m>>)>>, GenEnvs(seed, 8, TRUE), GenExc(seed, 9))]
-  ELSE [class |-> "alpha-syl", rule |-> Rule(<<SylEl(<<<<"s", "stress", "A">>>>)>>, <<Mx(<<<<"s", "stress", "A">>>>)>>, GenEnvs(seed, 8, TRUE), GenExc(seed, 9))]
+  ELSE IF Chance(seed, 5, 1, 2) THEN [class |-> "alpha-syl", rule |-> Rule(<<SylEl(<<<<"s", "stress", "A">>>>)>>, <<Mx(<<<<"s", "stress", "A">>>>)>>, GenEnvs(seed, 8, TRUE), GenExc(seed, 9))]
+  ELSE LET a == AlphaTargets[Pick(seed, 4, Len(AlphaTargets))]  b == AlphaTargets[Pick(seed, 6, Len(AlphaTargets))]      \* two alphas at once (the manual's `[Along, Boverlong]`)
+           ms == IF a = b THEN <<<<a[1], a[2], "A">>>> ELSE <<<<a[1], a[2], "A">>, <<b[1], b[2], "B">>>>
+           base == IF Chance(seed, 7, 1, 2) THEN Grp(9) ELSE Mx(<<>>)
+       IN [class |-> "alpha2", rule |-> Rule(<<WithMods(base, ms)>>, <<Mx(ms)>>, GenEnvs(seed, 8, TRUE), GenExc(seed, 9))]
 
 (* C10: "observer pairs" - an earlier rule writes a property (feature, length, stress, tone) that a later rule reads in its input or context. *)
 (* Staging puts a text boundary between the two, so anything the rendering loses becomes visible.                                             *)
 GenObserverPair(seed) ==
-  LET c == Pick(seed, 3, 4)
+  LET c == Pick(seed, 3, 5)
       m == CASE c = 1 -> <<"f", FeatPool[Pick(seed, 4, Len(FeatPool))], Chance(seed, 5, 1, 2)>>
+             [] c = 5 -> LET nd == NodePool[Pick(seed, 4, Len(NodePool))] IN <<"n", nd, IF nd = "place" THEN FALSE ELSE Chance(seed, 5, 1, 2)>>     \* e.g. [-place]: often a segment that cannot be spelled
              [] c = 2 -> GenLenMod(seed, 4)
              [] c = 3 -> GenStressMod(seed, 4)
              [] OTHER -> GenToneMod(seed, 4)
-      onSyl == c >= 3 /\ Chance(seed, 6, 1, 2)
+      onSyl == c \in {3, 4} /\ Chance(seed, 6, 1, 2)
       target == IF onSyl THEN SylEl(<<>>) ELSE IF Chance(seed, 7, 1, 2) THEN Grp(9) ELSE GenSeg(seed, 8)
       writer == Rule(<<target>>, <<Mx(<<m>>)>>, GenEnvs(seed, 9, TRUE), <<>>)
       obs == IF onSyl THEN SylEl(<<m>>) ELSE WithMods(IF Chance(seed, 10, 1, 2) THEN Grp(9) ELSE Mx(<<>>), <<m>>)
@@ -288,7 +360,8 @@ GenShorthand(seed) ==
 (* segment or one feature matrix, context / exception / environment set over segment elements, sets,     *)
 (* # and $) with literals drawn from all cardinals and matrices over all 26 features.                     *)
 F0Lit(seed, p) == Ipa(Pick(seed, p, Len(Base)))
-F0Mx(seed, p) == Mx([i \in 1..Pick(seed, p, 3) |-> <<"f", Pick(seed, C(p, i), NFeat), Chance(seed, C(p, i + 4), 1, 2)>>])
+\* up to three DISTINCT features (a matrix naming one feature twice with opposite signs has no documented meaning)
+F0Mx(seed, p) == LET b == Pick(seed, C(p, 7), NFeat) IN Mx([i \in 1..Pick(seed, p, 3) |-> <<"f", ((b + 7 * i) % NFeat) + 1, Chance(seed, C(p, i + 3), 1, 2)>>])
 F0Seg(seed, p) == LET c == Pick(seed, p, 8) IN
                   CASE c <= 3 -> F0Lit(seed, C(p, 1)) [] c <= 5 -> F0Mx(seed, C(p, 1)) [] c = 6 -> Mx(<<>>) [] OTHER -> Grp(Pick(seed, C(p, 1), 9))
 F0El(seed, p) == IF Chance(seed, p, 1, 5) THEN SetOf([i \in 1..(1 + Pick(seed, C(p, 1), 2)) |-> F0Seg(seed, C(p, 1 + i))]) ELSE F0Seg(seed, C(p, 5))
